@@ -90,6 +90,7 @@ void carray2_bbox_labeled(const T* array, const int N0, const int N1, T2 extrema
     gil_release nogil;
     for (int y = 0; y != N0; ++y) {
         for (int x = 0; x < N1; ++x, ++array) {
+            if (*array < 0) continue; // not a label: there is no row for it
             T2 base = extrema + (*array) * 4;
             base[0] = std::min<numpy::index_type>(base[0], y);
             base[1] = std::max<numpy::index_type>(base[1], y+1);
@@ -107,6 +108,7 @@ void bbox_labeled(const numpy::aligned_array<T> array, T2 extrema) {
     const int nd = array.ndim();
     typename numpy::aligned_array<T>::const_iterator pos = array.begin();
     for (int i = 0; i != N; ++i, ++pos) {
+        if (*pos < 0) continue; // not a label: there is no row for it
         numpy::position where = pos.position();
         T2 base = extrema + (*pos) * 2 * nd;
         for (int j = 0; j != array.ndims(); ++j) {
